@@ -174,7 +174,7 @@ func (m *Machine) Listing(name string, arity int) ([]*rt.Term, bool) {
 	}
 	var out []*rt.Term
 	for _, c := range p.clauses {
-		h, b := ToRT(c.head), ToRT(c.body)
+		h, b := ToRT(c.head), ToRT(c.raw)
 		out = append(out, rt.Canon([]*rt.Term{rt.C(":-", h, b)})[0])
 	}
 	return out, true
